@@ -2590,7 +2590,7 @@ def stage_corr_int(ctx, env):
                 # the hypothesis fragI of int_norm_canonical (also: no exponent 0, atoms determined by rank)
                 canon_lines.append(sexp.dumps(["fragi", args[0], args[0]]))
             if op == "intnormeq":
-                # the hypothesis of int_norm_eq_canonical_partial on the difference lhs - rhs
+                # the hypothesis of int_norm_eq_canonical on the difference lhs - rhs
                 d = ["sub", args[0], args[1]]
                 canon_lines.append(sexp.dumps(["fragi", d, d]))
             if op == "intsimp" and impl.startswith("("):
